@@ -8,6 +8,9 @@ from checks.C26 import sym_ok, kw_ok, bstr_ok, mk
 
 ALPH = "a1-._:#\"'()[]{};~`^,| \n\té＿/\\@+e"
 BALPH = "]ab\n["
+# identifier-looking strings that the reader takes for numbers (or not): longer than the box, outside its alphabet
+CANDS = ["Inf", "NaN", "-Inf", "Infinity", "Inf_", "NaN__", "Infj", "InfJ", "NaNj", "NaNJ", "Inf_j", "inf", "nan", "INF", "j", "J", "_1", "1", "1j", "1e5", "e5", "0x1", "0b2",
+         "1_000", "a.b", ".a", "a.", "...", "None", "True", "1+2j", "j_", "-j", "+j", "١", "²", "x²", "hyx_", "a/b", "/", "//", "#a", "a#", "&rest", "-", "->", "+1", "+a", "1a", "1.5.2"]
 DALPH = "ab=]"
 
 
@@ -120,6 +123,9 @@ def spec(tier, seed):
             L = ["from checks.C26 import ALPH", "def %s(%s) -> bool:" % (fn, params), '    """', "    pre: " + pre, "    post: _", '    """',
                  "    return %s(mk(ALPH, [%d, %s]))" % (fname, i, ", ".join("i%d" % k for k in range(1, maxlen)))]
             obs.append(Ob(fn, "\n".join(L), sample="%s: strings starting with %r, length <= %d over %r" % (grp, ALPH[i], maxlen, ALPH), group=grp))
+    L = ["from checks.C26 import CANDS", "def hcand(i: int, kw: bool) -> bool:", '    """', "    pre: 0 <= i < %d" % len(CANDS), "    post: _", '    """',
+         "    for k in range(%d):" % len(CANDS), "        if i == k:", "            return kw_ok(CANDS[k]) if kw else sym_ok(CANDS[k])", "    return True"]
+    obs.append(Ob("hcand", "\n".join(L), sample="Symbol(s) / Keyword(s) vs reader for the hand-written candidates %r" % (CANDS,), group="candidates"))
     # bracket strings: delimiter length <= 2, content length <= 3 (4 thorough)
     clen = 3 if tier == "quick" else 4
     for d0 in range(-1, len(DALPH)):
@@ -146,7 +152,7 @@ def spec(tier, seed):
                               "hy.reader.hy_reader.HyReader (read_many on the same text)"],
         "bounds": "Symbol / Keyword: every string of length 1..%d over the %d-character alphabet %r; String(s, brackets=d): d of length 0..2 over %r, s of length 0..%d over %r "
                   "(s starting with a newline excluded: the reader drops it by design)" % (maxlen, n, ALPH, DALPH, clen, BALPH),
-        "outside": "longer strings; characters outside the alphabets",
+        "outside": "longer strings and characters outside the alphabets, except the 50 hand-written number-like candidates",
         "stubs": [],
         "assumptions": ["both sides are the real code: this is a differential of two implementations of one rule (constructor-side validation vs the reader)"],
     }
